@@ -202,6 +202,8 @@ impl Graph {
 /// A `ChannelDetails` handed to the router as a first hop.
 #[derive(Clone, PartialEq, Eq, Debug)]
 pub struct FirstHop {
+	/// the channel's outbound SCID alias, if it has one besides its real SCID
+	pub alias: Option<u64>,
 	pub scid: u64,
 	pub to: u8,
 	pub limit: u64,
@@ -304,7 +306,7 @@ impl Query {
 			None => Value::Null,
 			Some(v) => Value::Array(
 				v.iter()
-					.map(|f| json!({"scid": f.scid, "to": f.to, "limit": f.limit, "min": f.min, "announced": f.announced}))
+					.map(|f| json!({"scid": f.scid, "alias": f.alias, "to": f.to, "limit": f.limit, "min": f.min, "announced": f.announced}))
 					.collect(),
 			),
 		};
@@ -342,6 +344,7 @@ impl Query {
 				let mut o = Vec::new();
 				for f in a {
 					o.push(FirstHop {
+						alias: f.get("alias").and_then(|x| x.as_u64()),
 						scid: f["scid"].as_u64()?,
 						to: f["to"].as_u64()? as u8,
 						limit: f["limit"].as_u64()?,
@@ -528,6 +531,12 @@ pub fn edges(g: &Graph, q: &Query) -> Vec<Edge> {
 			for (hi, h) in hints.iter().enumerate() {
 				for (k, hop) in h.iter().enumerate() {
 					let to = if k + 1 < h.len() { h[k + 1].src } else { PAYEE };
+					// a hint hop that names one of the payer's own channels (by real SCID or alias) adds nothing:
+					// the supplied first hop, with its current limits, is what may be used
+					let own = hop.src == PAYER && q.first_hops.as_ref().map_or(false, |f| f.iter().any(|x| x.scid == hop.scid || x.alias == Some(hop.scid)));
+					if own {
+						continue;
+					}
 					out.push(Edge {
 						kind: EdgeKind::Hint(hi, k),
 						scid: hop.scid,
